@@ -153,9 +153,10 @@ def main():
             aerr = [l for l in fired if "analysis-error" in l or "internal-error" in l]
             if c["kind"] == "break":
                 okk = rc == 1 and bool(fired) and not (aerr and len(aerr) == len(fired))
-                for ek in c.get("expect_key", []):
-                    if not any(ek in l for l in fired):
-                        okk = False
+                if prop == c["props"][0]:  # expect_key describes the first (own) property's violation
+                    for ek in c.get("expect_key", []):
+                        if not any(ek in l for l in fired):
+                            okk = False
             else:
                 okk = rc == 0 and not fired
             row["props"][prop] = {"ok": okk, "rc": rc, "violations": len(fired)}
